@@ -123,7 +123,11 @@ def run(ctx):
         "and compares reads and the complete offset view with the extracted Coq machine; c10.indep replays every D-respecting trace "
         "without its growth operations on a 4096-slot Thread and requires identical reads. NOT PROVED, only differential-tested (stream "
         "c10.env): everything outside the value stack (thread pool / queue / symbol-table presize / call-stack size), generators and "
-        "async frames; growth is only triggered at calls (70% rule), so a single frame needing more than 30% of the stack still "
+        "async frames (restoring a suspended generator's saved frame on the thread's stack is NOT an operation of the proved machine: "
+        "C10_generator_resume_stale_refuted is only a finite witness on the model that a restore through a destination address taken "
+        "before a growth loses the frame; the Go code of CallGeneratorNext is covered at implementation level by the GENERATOR-RESUME "
+        "family of the depth sweep: g.next / for-in resuming generators suspended with live locals and pending temporaries, created at "
+        "the same level or suspended at the top level and passed down, at every depth of the sweep for every stack size); growth is only triggered at calls (70% rule), so a single frame needing more than 30% of the stack still "
         "overflows silently - outside the model and outside what the generated programs reach. Constructs of the run loop that "
         "hold a slot pointer across a nested call (opNext, interpolation, operator calls, native callbacks) are NOT in the Coq "
         "machine: C10_stale_slot_address_refuted only shows on the model that a write through a slot address cached before a "
@@ -245,7 +249,9 @@ def run(ctx):
                "pointer across a nested bytecode call per program (for-in over a user-defined iterator / iterable, closure calls, "
                "string interpolation calling to_string, operator / subscript / predicate methods of user classes, native map / fold "
                "/ filter calling back bytecode closures with and without captured writes, nested call arguments, error unwinding, "
-               "tail calls; the helper they call takes 2-7 extra arguments) executed at EVERY level of a recursion deep enough to "
+               "tail calls; GENERATOR RESUME: g.next and for-in on generators suspended with live state - locals only, or inside a list "
+               "literal with k+7 pending temporaries so that the saved frame is wider than the recursion's frame stride - created at the "
+               "same level or suspended at the top level and passed down the recursion, and a generator body calling a bytecode helper; the helper they call takes 2-7 extra arguments) executed at EVERY level of a recursion deep enough to "
                "pass 70 %% of 256/512 slots (and of the other lattice sizes and their doubles), per ELK_INIT_VALUE_STACK_SIZE in "
                "{1, 6400, 6800, 7200, 9000, 12000, unset} with 0-9 dummy top-level slots shifting the frames; expected output "
                "computed in Python per level" % (ncorpus, sweep_cases),
